@@ -29,8 +29,10 @@ def run(pk, par):
     return failed
 failed = run(pkgs, 4)
 # timing-sensitive integration tests fail under load: retry failing packages alone, twice
-for _ in range(2):
+import time
+for attempt in range(4):
     if failed:
+        time.sleep(5 * attempt)  # integration tests bind fixed ports; another job may hold them briefly
         failed = run(sorted(failed), 1)
 ran_pkgs = set(pkgs)
 bad = sorted(t for t in stable if t.split("::")[0] in ran_pkgs and res.get(t) != "pass")
